@@ -5,7 +5,7 @@
      (a) the operators below are a statement-by-statement transcription of HOW livesim2 computes
            - the answer to a media segment request addressed by $Number$ or by $Time$
              (cmd/livesim2/app: cfgFromRequest, createOutSeg, findSegMetaFromNr, findSegMetaFromTime,
-              CheckTimeValidity; handler status mapping 404 / 425 / 410 / 500),
+              CheckTimeValidity; handler status mapping 400 / 404 / 425 / 410 / 500),
            - the SegmentTimeline of a live MPD, its startNumber and its publishTime
              (calcWrapTimes, generateTimelineEntries, normalizeToLoop, findFirstFinishedSegIdx,
               adjustAdaptationSetForTimelineNr, calcPublishTime / lastSegAvailTimeS),
@@ -23,7 +23,8 @@
    Configuration record (plain integers: the explorer works near time zero, ?nowMS= and start_ are inputs):
      c = [ N, dur, vod0, TS, loopMS, tsbd, ato, snr   as in LiveTimelineOps (ato in ms, -1 = infinite),
            ast,                                        availabilityStartTime in s (start_<ast>)
-           fix ]                                       FALSE = the code as it is; TRUE = with proposed_fixes/X03-vod0-*.diff
+           fix ]                                       TRUE = the present code; FALSE = the code before the vod0 fixes 27fa7f8 / 52d2ae2
+                                                       (history: kept for the as-written counterexample configs)
    rep.Segments[j] (0-based) of the asset loader is  StartTime = vod0 + dur[1..j], EndTime = StartTime + dur[j+1]
    (the loader itself is C15's subject: taken as given).  a.LoopDurMS = loopMS.
 
@@ -68,7 +69,12 @@ CheckTimeValidity(c, availTicks, nowMS) ==
 BeforeStart(c, nowMS) == nowMS < c.ast * 1000
 BeforeStartRes(c, nowMS) == Res(425, c.ast * 1000 - nowMS, FALSE, FALSE, NoSeg)
 
-(* ---- livesegment.go: createOutSeg (segmentNumber / timeLineNumber) + findSegMetaFromNr *)
+\* configurl.go verifyAndFillConfig (since 63cb812): ato_inf together with segtimeline_1 / segtimelinenr_1 is a bad request (400) for
+\* every URL of that configuration - decided before the start-time check
+Refused(c) == c.ato < 0
+RefusedRes == Res(400, 0, FALSE, FALSE, NoSeg)
+
+(* ---- livesegment.go: createOutSeg (segmentNumber) + findSegMetaFromNr; $Number$ URL (for a segtimelinenr_1 URL: RefusedRes if Refused) *)
 LookupNr(c, nr, nowMS) ==
    IF BeforeStart(c, nowMS) THEN BeforeStartRes(c, nowMS)
    ELSE IF nr < c.snr THEN Res(404, 0, FALSE, FALSE, NoSeg)                    \* if nr < uint32(cfg.getStartNr()) errNotFound
@@ -90,14 +96,15 @@ FindSegmentIndexFromTime(c, t) ==
 
 (* ---- livesegment.go: createOutSeg (timeLineTime) + findSegMetaFromTime; plain errors become 500 in the handler *)
 LookupTime(c, time, nowMS) ==
-   IF BeforeStart(c, nowMS) THEN BeforeStartRes(c, nowMS)
+   IF Refused(c) THEN RefusedRes
+   ELSE IF BeforeStart(c, nowMS) THEN BeforeStartRes(c, nowMS)
    ELSE LET mediaRef      == c.ast * c.TS
             wrapDur       == GoDiv(c.loopMS * c.TS, 1000)
             nrWraps       == IF c.fix THEN GoDiv(time - SegStart(c, 0), wrapDur) ELSE GoDiv(time, wrapDur)
             wrapTime      == nrWraps * wrapDur
             timeAfterWrap == time - wrapTime
             idx           == FindSegmentIndexFromTime(c, timeAfterWrap)
-        IN IF c.fix /\ time < SegStart(c, 0) THEN Res(500, 0, FALSE, FALSE, NoSeg)           \* (proposed fix only)
+        IN IF c.fix /\ time < SegStart(c, 0) THEN Res(500, 0, FALSE, FALSE, NoSeg)           \* (since 27fa7f8)
            ELSE IF idx = c.N THEN Res(500, 0, FALSE, FALSE, NoSeg)                                \* "no matching segment"
            ELSE IF SegStart(c, idx) # timeAfterWrap THEN Res(500, 0, FALSE, FALSE, NoSeg)    \* "segment time mismatch"
            ELSE LET v == CheckTimeValidity(c, SegEnd(c, idx) + wrapTime + mediaRef, nowMS) IN
@@ -131,7 +138,7 @@ FindFirstFinishedSegIdx(c, t) ==
 
 \* the block of generateTimelineEntries that is written twice (start edge / now edge): -> <<wraps, relIdx>>
 EdgeIdx(c, relMS, wraps0) ==
-   LET v0   == IF c.fix THEN SegStart(c, 0) ELSE 0                                  \* (proposed fix: the loop starts at vod0)
+   LET v0   == IF c.fix THEN SegStart(c, 0) ELSE 0                                  \* (since 52d2ae2: the loop starts at vod0)
        nl   == NormalizeToLoop(GoDiv((relMS + c.ato) * c.TS, 1000) - v0, RepDuration(c))
        relT == nl[1] + v0
        w1   == wraps0 + nl[2]
@@ -151,11 +158,11 @@ BuildS(c, nr, nowNr, acc) ==
                                            lsiStart |-> start1, lsiDur |-> sd, lsiNr |-> nr])
 
 (* ---- asset.go generateTimelineEntries(repID, wt, atoMS) + livempd.go publishTime / startNumber.
-   Result: st (200 / 425), S = raw entries <<hasT, t, d, r>>, sn = se.startNr (-1: no segment), lastNr = lsi.nr,
+   Result: st (200 / 425 / 400), S = raw entries <<hasT, t, d, r>>, sn = se.startNr (-1: no segment), lastNr = lsi.nr,
    pt = publishTime in ms (absolute), ptfrag = float rounding noise decides the ms *)
 Timeline(c, nowMS) ==
-   IF BeforeStart(c, nowMS) THEN [st |-> 425, S |-> <<>>, sn |-> -1, lastNr |-> -1, pt |-> 0, ptfrag |-> FALSE]
-   ELSE IF c.ato < 0 THEN [st |-> 500, S |-> <<>>, sn |-> -1, lastNr |-> -1, pt |-> 0, ptfrag |-> FALSE]   \* ErrAtoInfTimeline
+   IF Refused(c) THEN [st |-> 400, S |-> <<>>, sn |-> -1, lastNr |-> -1, pt |-> 0, ptfrag |-> FALSE]        \* ErrAtoInfTimeline
+   ELSE IF BeforeStart(c, nowMS) THEN [st |-> 425, S |-> <<>>, sn |-> -1, lastNr |-> -1, pt |-> 0, ptfrag |-> FALSE]
    ELSE
    LET wt    == WrapTimes(c, nowMS)
        se0   == EdgeIdx(c, wt.startRelMS, wt.startWraps)
